@@ -27,7 +27,7 @@ CLAIMED["C02"] = dict(
          "shown equal to the textbook EKF step in covariance form for all three factorisations, three calibration "
          "modes, TS0/TS1, first/second-order ODEs (z3 QF_LRA unsat on linearised polynomial-identity obligations); "
          "solve_fixed_grid is shown to be init followed by exactly these steps (relational, same trace). By induction "
-         "this covers every grid; the induction itself is stated, not machine-checked.",
+         "this covers every grid; the induction itself is stated, not machine-checked. Also solver.init with an initial-constraint update from an arbitrary initial distribution (posterior, solution_full, MLE bookkeeping).",
     technique="jaxpr symbolic execution + polynomial hypotheses + z3 QF_LRA (XL certificates); z3 NRA refutation; float64 replay",
     design="§4 C02")
 
@@ -62,7 +62,7 @@ CLAIMED["C05"] = dict(
          "and the identity restart), decided by z3 QF_LRA on linearised polynomial obligations for all three "
          "factorisations. (S) The real adaptive driver with a scripted solver: with and without an extra checkpoint the "
          "k-th executed attempt is identical for every error profile, and consecutive interpolations inside one step are "
-         "chained through the states returned by the previous interpolation (z3 over the unrolled driver).",
+         "chained through the states returned by the previous interpolation (z3 over the unrolled driver). Also (S) solve_adaptive_terminal_values against solve_adaptive_save_at([t0,t1]) with shared symbolic dt0, distinct tolerances/damping and the same scripted controller: same attempts, same arguments reaching solver and error estimate, same outputs.",
     technique="jaxpr symbolic execution; z3 QF_LRA (XL certificates) for the Gaussian algebra, z3 QF_UFLRA over the unrolled driver for the control part; replay on the real code",
     design="§4 C05")
 
@@ -74,7 +74,7 @@ CLAIMED["C09"] = dict(
          "Hilbert-type process noise; transitions over h1 then h2 merge to the transition over h1+h2; every Pade/Legendre "
          "initialisation (orders 3,5,7,9,13) reproduces e^A and the exact Gramian on the nilpotent drift where it is "
          "algebraically exact; one doubling step is exact from an arbitrary state. z3 QF_LRA decides the linearised "
-         "polynomial obligations.",
+         "polynomial obligations. The public exp_gram_cholesky is additionally run with a concrete tiny step so that the data-dependent scaling count is the one the real code computes.",
     technique="jaxpr symbolic execution with exact algebraic constants + polynomial hypotheses + z3 QF_LRA (XL certificates); float64 replay",
     design="§4 C09")
 
@@ -164,7 +164,7 @@ CLAIMED["C12"] = dict(
          "per output time). log is uninterpreted; the returned polynomial-in-atoms is split into its log-free part and the "
          "product of the log arguments, and both are shown equal (z3 QF_LRA on linearised obligations) to the log-density of "
          "the exact joint Gaussian law of the observed coefficient at all output times (assembled from the kernels, then "
-         "conditioned in covariance form), summed or averaged. Observed coefficient 0 and 1, three factorisations.",
+         "conditioned in covariance form), summed or averaged. Observed coefficient 0 and 1, three factorisations. Longer series are covered by the inductive step: the real scan body of evaluate_lml applied once to an arbitrary carry (sum and running mean).",
     technique="jaxpr symbolic execution + polynomial hypotheses + z3 QF_LRA (XL certificates); uninterpreted log; float64 replay",
     design="§4 C12")
 
@@ -178,7 +178,7 @@ CLAIMED["C19"] = dict(
          "reproduces an affine residual exactly (z3 QF_LRA on linearised obligations, lstsq as a contract). (S) The whole routine "
          "with its real while loop (maxiter 1..3, unrolled, unwinding condition discharged) over z3 terms with products, "
          "quotients and norms as uninterpreted functions: 0<=iters<=maxiter, early stop implies feasible-to-tolerance or "
-         "stagnated, feasible start returns the start, reported residual is the constraint at the returned point.",
+         "stagnated, feasible start returns the start, reported residual is the constraint at the returned point. The real cond_fun is decided on an arbitrary loop state against the documented three-way rule.",
     technique="jaxpr symbolic execution + polynomial hypotheses + z3 QF_LRA (XL certificates); z3 QF_UFLRA bounded unrolling of the loop; float64 replay",
     design="§4 C19")
 
